@@ -55,7 +55,7 @@ class TIdSequenceMode:
     """Inside CREATE SEQUENCE the ten option words are keywords in every letter case, everything
     else is a plain value (C17 / C05)."""
     fn = "ddl_parser.DDLParser.t_ID"
-    props = ["C17", "C05"]
+    props = ["C17", "C05", "C06"]        # C06: a sequence (or its schema) may be called like a keyword of another context
     cases = {"option-or-value": {}}
 
     def build(G, case):
@@ -64,9 +64,6 @@ class TIdSequenceMode:
                             last_token=G.str("lx.last_token", r"ID|INCREMENT|START|WITH|MINVALUE|MAXVALUE|CACHE|NO|BY|NOORDER|ORDER", "ID"))
         parser = G.parser(lexer=flags)
         return dict(args=[parser, G.token(G.str("v", WORD, "Increment"), "ID")])
-
-    def requires(case, self_, t):
-        return not t.value.startswith("ARRAY")
 
     def spec(case, self_, t):
         if t.value.upper() in SEQUENCE_WORDS:
@@ -87,7 +84,7 @@ class ParenthesisDepth:
     """lp_open counts the parentheses still open: a closing parenthesis decrements it (never below zero), the one that
     closes the column list switches to the after-columns context; last_par remembers the kind of the last parenthesis"""
     fn = "ddl_parser.DDLParser.set_parenthesis_tokens"
-    props = ["C01", "C09", "C11"]
+    props = ["C01", "C09", "C11", "C02", "C07"]      # C02 / C07: a parenthesis inside a CHECK expression does not end the CHECK context
     cases = {"any-token": {}}
 
     def build(G, case):
@@ -129,7 +126,7 @@ class StatementKindFlags:
     """the statement-kind flags follow the keywords: ALTER -> is_alter, LIKE -> is_like, TYPE / DOMAIN / TABLESPACE clear
     is_table, TABLE / INDEX set it (outside ALTER); a comma between column definitions ends a CHECK context"""
     fn = "ddl_parser.DDLParser.set_lexx_tags"
-    props = ["C01", "C03", "C09"]
+    props = ["C01", "C03", "C09", "C02", "C07"]
     cases = {"any-token": {}}
 
     def build(G, case):
@@ -157,3 +154,22 @@ class StatementKindFlags:
             lx.is_table = False
         elif t.type in ["TABLE", "INDEX"] and not lx.is_alter:
             lx.is_table = True
+
+
+@contract
+class ContextOpeningKeywords:
+    """SEQUENCE opens the sequence context, CHECK opens the CHECK context (a flag: it lasts until the comma that ends the
+    column / constraint, whatever is nested inside the expression); no other token type touches the context here"""
+    fn = "ddl_parser.DDLParser.set_lexer_tags"
+    props = ["C02", "C07", "C17", "C09", "C03"]
+    cases = {"any-token": {}}
+
+    def build(G, case):
+        flags = lexer_flags(G, lp_open=G.int("lx.lp_open", 0))
+        return dict(args=[G.parser(lexer=flags), G.token(G.str("v"), G.str("ty", r"[A-Z_]+", "CHECK"))])
+
+    def spec(case, self_, t):
+        if t.type == "SEQUENCE":
+            self_.lexer.sequence = True
+        elif t.type == "CHECK":
+            self_.lexer.check = True
